@@ -85,7 +85,7 @@ def _expand(task):
             raise Divergence("replay of %r gave a different state" % (hist,))
         en = w.enabled()
         for idx, ev in enumerate(en):
-            ndev = dev + (1 if idx > 0 else 0)
+            ndev = dev + (1 if idx > 0 else 0) if scn.dev_bound is not None else 0
             if scn.dev_bound is not None and ndev > scn.dev_bound:
                 break
             if idx > 0:
